@@ -1,15 +1,19 @@
 """C18 — symbolized callables keep Python call semantics."""
 import collections, inspect, itertools, json, sys
 from harness.lib import tr as trlib
+from harness.translators import binding_calltime
+
+GENERATED = {'Gen/BindingCallTime.v': binding_calltime.translate}
 
 META = dict(
     id='C18',
-    model_run='PG.Model.Binding.run',
-    model_targets=['Model/Binding.vo'],
+    model_run='PG.Model.BindingRun.run',
+    model_targets=['Model/BindingRun.vo'],
+    instance_obligations=['generated_code_agrees_on_grid (Proofs/BindingGen.v: the program regenerated from Functor._parse_call_time_overrides agrees with the hand model on a finite grid, vm_compute, re-checked on the code regenerated from the current source)'],
     technique=('Coq proof over an executable model of (1) the language rule binding call arguments to a signature, (2) Functor.__init__ / _on_change / '
                '_parse_call_time_overrides / __call__, Object.__init__ + ClassWrapper._call_init, Signature.to_schema/from_schema/make_function and '
                '(3) the specification "same effective arguments passed directly"; differential correspondence of all three against the code and the '
-               'interpreter; direct differential oracle against the original callable'),
+               'interpreter; Functor._parse_call_time_overrides regenerated from the source by a fail-closed ast translator into a deep-embedded program (Gen/BindingCallTime.v) that is proved equal to the hand model on a finite grid and compared with it on every case of every run; direct differential oracle against the original callable'),
     design_ref='DESIGN.md §5 C18',
     level_text=('Theorems: for every signature (any number of positional parameters with or without defaults, *args, keyword-only parameters, **kwargs) and every '
                 'construction call, sequence of later bindings, call-time arguments and override/ignore_extra flags, the functor model yields exactly what the '
@@ -23,8 +27,9 @@ META = dict(
                 'other than Any/int annotations, positional-only parameters, MISSING_VALUE as an argument, subclassed functors (pg.Functor subclasses with _call).'),
     rule=('a case is (signature, symbolization kind, construction call, flags, later bindings, call-time arguments, call-time flags, clone/JSON step); distinct by all '
           'of these; non-trivial when at least two of the supply routes (construction, later binding, call time) carry an argument or an error is expected'),
-    trusted_base=['extraction: ExtrOcamlBasic only; ocaml/main.ml lexer/printer; cross-checked against vm_compute on a sample',
-                  'hand-written Gallina transcription of functor.py / object.py __init__ / class_wrapper.py _call_init / callable_signature.py (no translator): tied by the differential run on every case',
+    trusted_base=['translator harness/translators/binding_calltime.py (fail-closed ast reader; conventions: value-spec apply is the identity on untyped arguments, exception messages are not evaluated, utils.auto_plural/comma_delimited_str are message helpers) and the interpreter coq/Model/BindingLang.v of the Python subset',
+                  'extraction: ExtrOcamlBasic only; ocaml/main.ml lexer/printer; cross-checked against vm_compute on a sample',
+                  'hand-written Gallina transcription of Functor.__init__ / _on_change / object.py __init__ / class_wrapper.py _call_init / callable_signature.py (no translator for these; _parse_call_time_overrides is regenerated): tied by the differential run on every case',
                   'Python exec of generated source text to create the functions and classes under test'],
     assumptions=['the wrapped callable itself is deterministic and only observed through the arguments it receives (it returns dict(locals()))'],
 )
@@ -682,6 +687,8 @@ def run(ctx):
   from harness.lib.common import use_repo
   use_repo()
   import pyglove as pg
+  info = ctx.regen('Gen/BindingCallTime.v', binding_calltime.translate)
+  ctx.extra['regenerated_call_time_code'] = info
   ctx.build()
   rng = ctx.rng
   q = detect_quirks()
